@@ -82,41 +82,45 @@ theorem handlePieceWriteDone_outs (m : M) (w : WriteJob) (e : Bool) :
         · exact Or.inr (Or.inl h)
         · exact Or.inr (Or.inr ⟨h, by simpa using hg, by simpa using he⟩)
 
-/-- `writerRun` is `handlePieceWriteDone` on a state in which, on the verified path, the piece is good. -/
+/-- `writerRun` is `handlePieceWriteDone` on a state in which, on the verified path, the piece is good
+(for a padding-only piece the job counts as verified only if the recorded hash is the hash of zeroes). -/
 theorem writerRun_split (m : M) (w : WriteJob) (h : Sound0 m.1) :
-    ∃ (m' : M) (e : Bool), writerRun m w = handlePieceWriteDone m' w e ∧ m'.2 = m.2 ∧
-      (w.good = true → e = false → m'.1.diskOKi w.piece = true) := by
+    ∃ (m' : M) (w' : WriteJob) (e : Bool), writerRun m w = handlePieceWriteDone m' w' e ∧ m'.2 = m.2 ∧
+      w'.piece = w.piece ∧ (w'.good = true → e = false → m'.1.diskOKi w'.piece = true) := by
   unfold writerRun
   split
-  · next hg => exact ⟨m, false, rfl, rfl, fun hg' => by simp [hg'] at hg⟩
+  · next hg => exact ⟨m, w, false, rfl, rfl, rfl, fun hg' => by simp [hg'] at hg⟩
   · dsimp only
     split
     · next hsecs =>
-      refine ⟨m, false, rfl, rfl, fun _ _ => diskOKi_of_no_data m.1 h.bad _ (fun sc hsc => ?_)⟩
-      have : sc ∉ (m.1.cfg.sections w.piece).filter fun sc => !(m.1.cfg.fpads.getD sc.file false) := by
-        rw [hsecs]; exact List.not_mem_nil
-      simp only [List.mem_filter, hsc, true_and] at this
-      simp at this
-      simp [Cfg.isData, this]
+      refine ⟨m, _, false, rfl, rfl, rfl, fun hg _ => diskOKi_of_no_data m.1 h.bad _ (fun sc hsc => ?_) ?_⟩
+      · have : sc ∉ (m.1.cfg.sections w.piece).filter fun sc => !(m.1.cfg.fpads.getD sc.file false) := by
+          rw [hsecs]; exact List.not_mem_nil
+        simp only [List.mem_filter, hsc, true_and] at this
+        simp at this
+        simp [Cfg.isData, this]
+      · simp only [Bool.and_eq_true] at hg
+        exact hg.2
     · split
-      · exact ⟨_, true, rfl, by simp, fun _ h => by cases h⟩
+      · exact ⟨_, w, true, rfl, by simp, rfl, fun _ h => by cases h⟩
       · split
-        · exact ⟨_, true, rfl, by simp, fun _ h => by cases h⟩
-        · exact ⟨_, false, rfl, by simp, fun _ _ => by simp [St.diskOKi]⟩
+        · exact ⟨_, w, true, rfl, by simp, rfl, fun _ h => by cases h⟩
+        · have hpad : m.1.cfg.padOK w.piece = true := padOK_of_stored (by rw [‹List.filter _ _ = _ :: _›]; simp)
+          exact ⟨_, w, false, rfl, by simp, rfl, fun _ _ => by simp [St.diskOKi, hpad]⟩
 
 /-- **A `have` sent on completion of a write names a piece whose verified bytes are on disk.** -/
 theorem writerRun_haves (m : M) (w : WriteJob) (h : Sound0 m.1) :
     ∀ o ∈ (writerRun m w).2, o ∈ m.2 ∨ ∀ i, o.msg = haveMsg i → (writerRun m w).1.diskOKi i = true := by
   intro o ho
-  obtain ⟨m', e, heq, h2, hok⟩ := writerRun_split m w h
+  obtain ⟨m', w', e, heq, h2, _, hok⟩ := writerRun_split m w h
   rw [heq] at ho ⊢
-  rcases handlePieceWriteDone_outs m' w e o ho with h' | h' | ⟨h1, hg, he⟩
+  rcases handlePieceWriteDone_outs m' w' e o ho with h' | h' | ⟨h1, hg, he⟩
   · exact Or.inl (h2 ▸ h')
   · exact Or.inr (fun i hi => absurd hi (h'.not_have i))
   · refine Or.inr (fun i hi => ?_)
-    have : i = w.piece := haveMsg_inj (hi.symm.trans h1)
+    have : i = w'.piece := haveMsg_inj (hi.symm.trans h1)
     subst this
-    exact diskOKi_mono (handlePieceWriteDone_adv m' w e hok).bad _ (hok hg he)
+    exact diskOKi_mono (handlePieceWriteDone_adv m' w' e hok).cfg (handlePieceWriteDone_adv m' w' e hok).bad _ (hok hg he)
 
 /-- **The bitfield a new peer is sent is the client's bitfield**: `haveall` only if every bit is set,
 `havenone` only if none is, otherwise the bitfield itself — so under `BitsSound` it names only verified
